@@ -118,6 +118,11 @@ def run(chk):
             chk.check(not bad_syms, "T-NONINT/Player::play/%s" % mode, "player state after an iteration depends on %s" % sorted(bad_syms))
             if not has_room:
                 chk.check(not ups and not gens and fs2 is FS and fr2 is FRM, key + "/no-room", "with no room left in the buffer the player state changes")
+                # the only reasons to stop producing samples are a full buffer (decided on its length) and the end of
+                # the tune as update_ay reports it at a frame start
+                if not room:
+                    why = [tm.show(c[1])[:80] for c in r.pc if c[0] in ("eq", "ne") and isinstance(c[1], T)]
+                    chk.fail(key + "/early-exit", "play returns without looking at the room left in the buffer, on the condition %s: the number of samples produced then depends on where the caller's buffers end" % why[-2:])
                 continue
             first = c04.cc_decide(r, tm.cmp("eq", FS, K(0, 64)))
             if first is None:
